@@ -682,6 +682,13 @@ def _run_history(out, rng, mt0, rows0, ops, arr, check_methods=True):
         except SpecNone:
             want_exc = "None"
         got_exc = None
+        if op[0] == "copy":
+            # oracle for copies / serialisation round trips: what a FRESH object built from the current rows does with the
+            # same call (same exception class => agree); the rows must be unchanged whenever the fresh copy succeeds
+            try:
+                _real_apply(_mk(rows, mt, type(aln).__name__ == "ArrayAlignment"), op, mt)
+            except Exception as e:
+                want_exc = type(e).__name__
         try:
             res = _real_apply(aln, op, mt)
             if res is None:
